@@ -58,3 +58,5 @@ adj_p = 0if x else 00and 0_0is 0
 adj_q = 0 if y<1.else 2
 adj_r = 0 if y<1.5else 3
 adj_s = 0 if y<.5else 0 if y<5.else 0 if y<1_0.0_1else 4
+longest_names = '\N{BOX DRAWINGS LIGHT DIAGONAL UPPER CENTRE TO MIDDLE LEFT AND MIDDLE RIGHT TO LOWER CENTRE}' "\N{BOX DRAWINGS LIGHT DIAGONAL UPPER CENTRE TO MIDDLE RIGHT AND MIDDLE LEFT TO LOWER CENTRE}"
+longest_names_f = f'{x}\N{BOX DRAWINGS LIGHT DIAGONAL UPPER CENTRE TO MIDDLE LEFT AND MIDDLE RIGHT TO LOWER CENTRE}{y}'; short_names = '\N{OX}\N{ANT}\N{BAT}' u'\N{ox}'
